@@ -5,6 +5,7 @@
   `Props/C20.lean`.
 -/
 import HugrVerif.Render
+import HugrVerif.RenderCheck
 import HugrVerif.Proofs.StoreHier
 import HugrVerif.Proofs.Ops
 
@@ -818,5 +819,103 @@ theorem render_succeeds_aux (E : Strs) (s : St) (c : RenderConfig) (hh : HierInv
   obtain ⟨name, hn⟩ := hname d hd
   simp only [render, hd, liftS, hv, hl, hn]
   exact ⟨_, rfl⟩
+
+/-! ### soundness of the executable hypothesis checks (`RenderCheck.lean`) -/
+
+theorem nodupB_sound : ∀ l : List Nat, nodupB l = true → l.Nodup := by
+  intro l
+  induction l with
+  | nil => intro _; exact List.nodup_nil
+  | cons x xs ih =>
+    intro h
+    simp only [nodupB, Bool.and_eq_true, Bool.not_eq_true', List.contains_eq_mem, decide_eq_false_iff_not] at h
+    exact List.nodup_cons.mpr ⟨h.1, ih h.2⟩
+
+theorem forLive_sound (s : St) (f : Nat → NodeData Op Serial.Meta → Bool) (h : forLive s f = true)
+    (i : Nat) (d : NodeData Op Serial.Meta) (hd : Store.getNode s i = .ok d) : f i d = true := by
+  unfold forLive at h
+  rw [List.all_eq_true] at h
+  have := h i (List.mem_range.mpr (Store.getNode_lt s i d hd))
+  simpa [hd] using this
+
+theorem hierB_sound (s : St) (h : hierB s = true) : HierInv s := by
+  unfold hierB at h
+  refine ⟨?_, ?_, ?_⟩
+  · intro p dp c hp hc
+    have := forLive_sound s _ h p dp hp
+    simp only [Bool.and_eq_true] at this
+    obtain ⟨⟨h1, _⟩, _⟩ := this
+    unfold childrenOkB at h1
+    rw [List.all_eq_true] at h1
+    obtain ⟨hh, hm, rfl⟩ := List.mem_map.mp hc
+    have := h1 hh hm
+    cases hg : Store.getNode s hh.1 with
+    | error e => simp [hg] at this
+    | ok dc =>
+      simp only [hg, beq_iff_eq] at this
+      exact ⟨dc, rfl, this⟩
+  · intro c dc p hc hp
+    have := forLive_sound s _ h c dc hc
+    simp only [Bool.and_eq_true] at this
+    obtain ⟨⟨_, h2⟩, _⟩ := this
+    unfold parentOkB at h2
+    simp only [hp] at h2
+    cases hg : Store.getNode s p with
+    | error e => simp [hg] at h2
+    | ok dp =>
+      simp only [hg, List.contains_eq_mem, decide_eq_true_eq] at h2
+      exact ⟨dp, rfl, h2⟩
+  · intro p dp hp
+    have := forLive_sound s _ h p dp hp
+    simp only [Bool.and_eq_true] at this
+    exact nodupB_sound _ this.2
+
+theorem rootB_sound (s : St) (h : rootB s = true) : RootInv s := by
+  unfold rootB at h
+  simp only [Bool.and_eq_true] at h
+  obtain ⟨h1, h2⟩ := h
+  cases hg : Store.getNode s s.root with
+  | error e => simp [hg] at h1
+  | ok d =>
+    simp only [hg, Option.isNone_iff_eq_none] at h1
+    refine ⟨⟨d, hg⟩, ?_, ?_⟩
+    · intro d' hd'; rw [hg] at hd'; injection hd' with hd'; subst hd'; exact h1
+    · intro i di hdi hp
+      have := forLive_sound s _ h2 i di hdi
+      simpa [hp] using this
+
+theorem parentBelowB_sound (s : St) (h : parentBelowB s = true) : ParentBelow s := by
+  intro p dp c hp hc
+  have := forLive_sound s _ h p dp hp
+  rw [List.all_eq_true] at this
+  obtain ⟨hh, hm, rfl⟩ := List.mem_map.mp hc
+  have := this hh hm
+  simpa using this
+
+theorem portBoundB_sound (s : St) (h : portBoundB s = true) : PortBound s := by
+  intro l hl
+  unfold portBoundB at h
+  rw [List.all_eq_true] at h
+  have := h l hl
+  simp only [Bool.and_eq_true] at this
+  obtain ⟨h1, h2⟩ := this
+  constructor
+  · cases hg : Store.getNode s l.1.1 with
+    | error e => simp [hg] at h1
+    | ok d =>
+      simp only [hg, Bool.and_eq_true, decide_eq_true_eq] at h1
+      exact ⟨d, rfl, h1.1, h1.2⟩
+  · cases hg : Store.getNode s l.2.1 with
+    | error e => simp [hg] at h2
+    | ok d =>
+      simp only [hg, Bool.and_eq_true, decide_eq_true_eq] at h2
+      exact ⟨d, rfl, h2.1, h2.2⟩
+
+/-- a store that passes the executable checks satisfies the store hypotheses of the C20 theorems -/
+theorem hypsB_sound (s : St) (h : hypsB s = true) : HierInv s ∧ RootInv s ∧ HierWF s ∧ PortBound s := by
+  unfold hypsB at h
+  simp only [Bool.and_eq_true] at h
+  obtain ⟨⟨⟨h1, h2⟩, h3⟩, h4⟩ := h
+  exact ⟨hierB_sound s h1, rootB_sound s h2, hierWF_of_parentBelow s (parentBelowB_sound s h3), portBoundB_sound s h4⟩
 
 end HugrVerif.Render
